@@ -390,3 +390,27 @@ func VerifFlush() {
 	}
 	verifMu.Unlock()
 }
+
+// VerifNewLRU returns a bare index with a running background remover (whose
+// callback does nothing), for drivers that exercise the index directly.
+func VerifNewLRU(maxSize int64, hardLimit int64) *SizedLRU {
+	l := NewSizedLRU(maxSize, func(string, lruItem) {}, 16)
+	l.maxSizeHardLimit = hardLimit
+	go l.performQueuedEvictionsContinuously()
+	return &l
+}
+
+// VerifLruAdd calls Add with an item built from its fields.
+func VerifLruAdd(c *SizedLRU, key string, size, sizeOnDisk int64, random string, legacy bool) bool {
+	return c.Add(key, lruItem{size: size, sizeOnDisk: sizeOnDisk, random: random, legacy: legacy})
+}
+
+// VerifLruIdle reports whether the remover of a bare index has caught up.
+func VerifLruIdle(c *SizedLRU) bool {
+	verifMu.Lock()
+	defer verifMu.Unlock()
+	return c.verifSt().pending == 0
+}
+
+// VerifLruID returns the identity of a bare index in events.
+func VerifLruIDOf(c *SizedLRU) uint64 { return verifLruID(c) }
